@@ -127,14 +127,16 @@ theorem binflexHelper_mem {base : AstMap} {L R : List AstMap} {m : AstMap} (h : 
 
 theorem isVar_false_of_isExp {cs : List Char} (h : isExpChars cs = true) : isVarChars cs = false := by
   simp only [isExpChars, Bool.and_eq_true, decide_eq_true_eq] at h
-  match cs, h with
-  | [], h => by simp at h
-  | [_], h => by simp at h
-  | a :: b :: rest, h =>
-    have h2 := h.1.2
-    simp only [List.take_succ_cons, List.take_zero, List.cons.injEq, and_true] at h2
-    obtain ⟨rfl, rfl⟩ := h2
-    simp [isVarChars]
+  cases cs with
+  | nil => simp at h
+  | cons a t =>
+    cases t with
+    | nil => simp at h
+    | cons b rest =>
+      have h2 := h.1.2
+      simp only [List.take_succ_cons, List.take_zero, List.cons.injEq, and_true] at h2
+      obtain ⟨rfl, rfl⟩ := h2
+      simp [isVarChars]
 
 theorem nameClass_of_isExp {n : String} (h : isExpChars n.toList = true) : nameClass n = .exp := by
   simp [nameClass, isVar_false_of_isExp h, h]
@@ -337,5 +339,495 @@ theorem deepPre_binflex {cm : Bool} {pp sp : Path} {p s : T}
               · split at h <;> cases h
             · cases h
       · cases h
+
+/-! ### the invariant of `deep` results -/
+
+def Under (pp : Path) (m : AstMap) : Prop := ∀ k ∈ keysOf m.mappings, pp <+: k
+
+/-- keys are the parent's own path or lie under one of its first `i` children -/
+def KeysIn (m : AstMap) (pp : Path) (i : Nat) : Prop :=
+  ∀ k ∈ keysOf m.mappings, k = pp ∨ ∃ i', i' < i ∧ (pp ++ [i']) <+: k
+
+structure Good (m : AstMap) (pp : Path) (p : T) (sp : Path) (s : T) : Prop where
+  under : Under pp m
+  nodup : (keysOf m.mappings).Nodup
+  emb : embAt m pp p sp s = true
+  exps : ∀ kv ∈ m.exps, expSomewhere m kv.1 kv.2 pp p = true
+  inv : ConfInv m
+  noconf : m.conflicts = []
+
+theorem KeysIn.under {m : AstMap} {pp : Path} {i : Nat} (h : KeysIn m pp i) : Under pp m := by
+  intro k hk
+  rcases h k hk with rfl | ⟨i', _, hp⟩
+  · exact List.prefix_refl _
+  · exact prefix_of_snoc_prefix hp
+
+theorem KeysIn.mono {m : AstMap} {pp : Path} {i j : Nat} (h : KeysIn m pp i) (hij : i ≤ j) : KeysIn m pp j := by
+  intro k hk
+  rcases h k hk with rfl | ⟨i', hi, hp⟩
+  · exact Or.inl rfl
+  · exact Or.inr ⟨i', by omega, hp⟩
+
+theorem noconf_of_hasConflicts {m : AstMap} (h : m.hasConflicts = false) : m.conflicts = [] := by
+  simpa [AstMap.hasConflicts] using h
+
+theorem hasConflicts_of_noconf {m : AstMap} (h : m.conflicts = []) : m.hasConflicts = false := by
+  simp [AstMap.hasConflicts, h]
+
+/-- merging a map whose keys are all new keeps every old answer -/
+theorem ext_merged_left {a b : AstMap} (hdisj : ∀ k ∈ keysOf b.mappings, k ∉ keysOf a.mappings) :
+    Ext a (a.merged b) := by
+  refine ⟨?_, ?_, ?_⟩
+  · intro k v hk
+    rw [merged_mappings]
+    have hka : k ∈ keysOf a.mappings := by
+      have := dictGet_mem hk
+      exact List.mem_map.2 ⟨(k, v), this, rfl⟩
+    have hkb : k ∉ keysOf b.mappings := fun h => hdisj k h hka
+    rw [dictGet_dictUpdate_of_not_key hkb]; exact hk
+  · intro k hk; rw [merged_exps]; exact dictGet_isSome_dictUpdate hk
+  · intro x hx; rw [merged_binds]; exact List.mem_append_left _ hx
+
+theorem ext_merged_right {a b : AstMap} (hn : (keysOf b.mappings).Nodup) : Ext b (a.merged b) := by
+  refine ⟨?_, ?_, ?_⟩
+  · intro k v hk; rw [merged_mappings]; exact dictGet_dictUpdate_of_get hn hk
+  · intro k hk; rw [merged_exps]; exact dictGet_isSome_dictUpdate_right hk
+  · intro x hx; rw [merged_binds]; exact List.mem_append_right _ hx
+
+theorem keys_merged {a b : AstMap} {k : Path} (h : k ∈ keysOf (a.merged b).mappings) :
+    k ∈ keysOf a.mappings ∨ k ∈ keysOf b.mappings := by
+  rw [merged_mappings] at h; exact keysOf_dictUpdate_subset h
+
+theorem nodup_merged {a b : AstMap} (h : (keysOf a.mappings).Nodup) : (keysOf (a.merged b).mappings).Nodup := by
+  rw [merged_mappings]; exact nodup_keysOf_dictUpdate h
+
+theorem mem_exps_merged {a b : AstMap} {kv : String × Path} (h : kv ∈ (a.merged b).exps) :
+    kv ∈ a.exps ∨ kv ∈ b.exps := by
+  rw [merged_exps] at h; exact mem_dictUpdate h
+
+/-- what the child loop guarantees for each of its results, relative to the base map it grew from -/
+structure LoopRes (m : AstMap) (x : AstMap × Nat) (ig : List String) (pp : Path) (i : Nat) (rest : List T)
+    (sp : Path) (s : T) : Prop where
+  ext : Ext x.1 m
+  under : Under pp m
+  nodup : (keysOf m.mappings).Nodup
+  inv : ConfInv m
+  noconf : m.conflicts = []
+  kids : ig = [] → embKids m pp i rest sp s true x.2 [] = true
+  exps : ∀ kv ∈ m.exps, kv ∈ x.1.exps ∨ expSomewhereL m kv.1 kv.2 pp i rest = true
+
+structure StGood (b : AstMap) (pp : Path) (i : Nat) : Prop where
+  keys : KeysIn b pp i
+  nodup : (keysOf b.mappings).Nodup
+  inv : ConfInv b
+  noconf : b.conflicts = []
+
+theorem deepKids_good (cm : Bool) (ig : List String) (pp sp : Path) (s : T) (rest : List T)
+    (hIH : ∀ c ∈ rest, ∀ cm pp sp s, ∀ m ∈ deep cm pp c sp s, Good m pp c sp s) :
+    ∀ (i : Nat) (st : List (AstMap × Nat)) (y : Nat), (∀ x ∈ st, StGood x.1 pp i) →
+      ∀ m ∈ deepKids cm ig pp i rest sp s st y, ∃ x ∈ st, LoopRes m x ig pp i rest sp s := by
+  induction rest with
+  | nil =>
+    intro i st y hst m hm
+    rw [deepKids] at hm
+    simp only [List.mem_map] at hm
+    obtain ⟨x, hx, rfl⟩ := hm
+    have hg := hst x hx
+    exact ⟨x, hx, Ext.refl _, hg.keys.under, hg.nodup, hg.inv, hg.noconf, fun _ => by rw [embKids],
+      fun kv hkv => Or.inl hkv⟩
+  | cons pc rest ih =>
+    intro i st y hst m hm
+    have ih' := ih (fun c hc => hIH c (List.mem_cons_of_mem _ hc))
+    rw [deepKids] at hm
+    split at hm
+    · -- ignored child
+      rename_i hign
+      obtain ⟨x, hx, hr⟩ := ih' (i + 1) st y
+        (fun x hx => ⟨(hst x hx).keys.mono (Nat.le_succ i), (hst x hx).nodup, (hst x hx).inv, (hst x hx).noconf⟩) m hm
+      refine ⟨x, hx, hr.ext, hr.under, hr.nodup, hr.inv, hr.noconf, ?_, ?_⟩
+      · intro hnil; subst hnil; simp at hign
+      · intro kv hkv
+        rcases hr.exps kv hkv with h | h
+        · exact Or.inl h
+        · right; rw [expSomewhereL]; simp [h]
+    · cases hmm : mapMerge st (candsFrom (fun j sj => deep cm (pp ++ [i]) pc (sp ++ [j]) sj) y 0 s.kids) with
+      | none => simp [hmm] at hm
+      | some res =>
+        obtain ⟨st', y'⟩ := res
+        simp only [hmm] at hm
+        have hmem := mapMerge_mem hmm
+        -- every new state is a good extension of an old one by a good child match
+        have hst' : ∀ x' ∈ st', StGood x'.1 pp (i + 1) := by
+          intro x' hx'
+          obtain ⟨x, hx, c, hc, _, r, hr, e1, e2, _⟩ := hmem x' hx'
+          obtain ⟨sj, _, _, hc3⟩ := candsFrom_mem _ _ _ hc
+          have hgr : Good r (pp ++ [i]) pc (sp ++ [c.1]) sj := by
+            apply hIH pc List.mem_cons_self; rw [← hc3]; exact hr
+          have hg := hst x hx
+          rw [e1]
+          refine ⟨?_, nodup_merged hg.nodup, confInv_merged _ _, ?_⟩
+          · intro k hk
+            rcases keys_merged hk with h | h
+            · exact (hg.keys.mono (Nat.le_succ i)) k h
+            · exact Or.inr ⟨i, Nat.lt_succ_self i, hgr.under k h⟩
+          · rw [← e1]; exact noconf_of_hasConflicts e2
+        obtain ⟨x', hx', hr'⟩ := ih' (i + 1) st' y' hst' m hm
+        obtain ⟨x, hx, c, hc, hge, r, hr, e1, e2, e3⟩ := hmem x' hx'
+        obtain ⟨sj, hsj, _, hc3⟩ := candsFrom_mem _ _ _ hc
+        have hgr : Good r (pp ++ [i]) pc (sp ++ [c.1]) sj := by
+          apply hIH pc List.mem_cons_self; rw [← hc3]; exact hr
+        have hg := hst x hx
+        have hdisj : ∀ k ∈ keysOf r.mappings, k ∉ keysOf x.1.mappings := by
+          intro k hk1 hk2
+          have hp := hgr.under k hk1
+          rcases hg.keys k hk2 with rfl | ⟨i', hi', hp'⟩
+          · exact not_snoc_prefix_self _ _ hp
+          · have := prefix_snoc_inj hp hp'; omega
+        have hxx' : Ext x.1 x'.1 := by rw [e1]; exact ext_merged_left hdisj
+        have hrx' : Ext r x'.1 := by rw [e1]; exact ext_merged_right hgr.nodup
+        have hrm : Ext r m := hrx'.trans hr'.ext
+        refine ⟨x, hx, hxx'.trans hr'.ext, hr'.under, hr'.nodup, hr'.inv, hr'.noconf, ?_, ?_⟩
+        · intro hnil
+          have hk := hr'.kids hnil
+          rw [embKids]
+          have hroot : dictGet (pp ++ [i]) m.mappings = some (sp ++ [c.1]) := hrm.maps _ _ (embAt_root hgr.emb)
+          rw [hroot]
+          simp only [List.getLast?_append, List.getLast?_singleton, Option.some_or]
+          have hsj' : s.kids[c.1]? = some sj := by simpa using hsj
+          simp only [hsj', if_true, Bool.and_eq_true, decide_eq_true_eq]
+          refine ⟨⟨⟨trivial, hge⟩, embAt_mono hrm _ _ _ _ hgr.emb⟩, ?_⟩
+          rw [embKids_used_irrel m pp sp s rest (i + 1) (c.1 + 1) [c.1] []]
+          rw [← e3]; exact hk
+        · intro kv hkv
+          rcases hr'.exps kv hkv with h | h
+          · rw [e1] at h
+            rcases mem_exps_merged h with h | h
+            · exact Or.inl h
+            · right
+              rw [expSomewhereL]
+              simp only [Bool.or_eq_true]
+              exact Or.inl (expSomewhere_mono hrm _ _ _ _ (hgr.exps kv h))
+          · right; rw [expSomewhereL]; simp [h]
+
+/-! ### the main induction -/
+
+theorem opLeavesL_mem {ks : List T} (h : opLeavesL ks = true) : ∀ c ∈ ks, opLeaves c = true := by
+  induction ks with
+  | nil => intro c hc; cases hc
+  | cons t ts ih =>
+    rw [opLeavesL] at h
+    simp only [Bool.and_eq_true] at h
+    intro c hc
+    cases hc with
+    | head => exact h.1
+    | tail _ hc' => exact ih h.2 c hc'
+
+theorem opLeaves_kids {k f : String} {fl : List Fld} {kids : List T} (h : opLeaves (.mk k f fl kids) = true) :
+    ∀ c ∈ kids, opLeaves c = true := by
+  rw [opLeaves] at h
+  simp only [Bool.and_eq_true] at h
+  exact opLeavesL_mem h.2
+
+theorem opLeaves_leaf {t : T} (h : opLeaves t = true) (hk : t.kind = "Add" ∨ t.kind = "Mult") : t.kids = [] := by
+  cases t with
+  | mk k f fl kids =>
+    rw [opLeaves] at h
+    simp only [Bool.and_eq_true, Bool.or_eq_true, Bool.not_eq_true', decide_eq_true_eq] at h
+    simp only [T.kind_mk] at hk
+    rcases h.1 with h1 | h1
+    · simp only [Bool.or_eq_false_iff, decide_eq_false_iff_not] at h1
+      rcases hk with hk | hk
+      · exact absurd hk h1.1
+      · exact absurd hk h1.2
+    · simpa using h1
+
+theorem good_pairMap_wild {pp sp : Path} {p s : T} (hr : role p = .wildcard) : Good (pairMap pp sp) pp p sp s := by
+  refine ⟨?_, by simp [keysOf, pairMap], ?_, ?_, confInv_pairMap _ _, rfl⟩
+  · intro k hk; simp only [keysOf, pairMap, List.map_cons, List.map_nil, List.mem_singleton] at hk
+    rw [hk]; exact List.prefix_refl _
+  · cases p with
+    | mk k f fl ks =>
+      rw [embAt]; simp [hr, pairMap, dictGet]
+  · intro kv hkv; simp [pairMap] at hkv
+
+theorem good_expMap {pp sp : Path} {p s : T} {name : String} (hr : role p = .expPh name) :
+    Good (expMap pp sp name) pp p sp s := by
+  refine ⟨?_, by simp [keysOf, expMap, pairMap], ?_, ?_, confInv_of_no_binds rfl rfl, rfl⟩
+  · intro k hk; simp only [keysOf, expMap, pairMap, List.map_cons, List.map_nil, List.mem_singleton] at hk
+    rw [hk]; exact List.prefix_refl _
+  · cases p with
+    | mk k f fl ks =>
+      rw [embAt]; simp [hr, expMap, pairMap, dictGet]
+  · intro kv hkv
+    simp only [expMap, List.mem_singleton] at hkv
+    subst hkv
+    cases p with
+    | mk k f fl ks =>
+      rw [expSomewhere]; simp [hr, expMap, pairMap, dictGet]
+
+theorem good_generic {cm : Bool} {ig : List String} {pp sp : Path} {k f : String} {fl : List Fld}
+    {kids : List T} {s : T} {b : AstMap}
+    (hpre : deepPre cm pp (.mk k f fl kids) sp s = .generic ig)
+    (hsh : shallowMatch cm pp (.mk k f fl kids) sp s = some b)
+    (hIH : ∀ c ∈ kids, ∀ cm pp sp s, ∀ m ∈ deep cm pp c sp s, Good m pp c sp s) :
+    ∀ m ∈ deepKids cm ig pp 0 kids sp s [(b, 0)] 0, Good m pp (.mk k f fl kids) sp s := by
+  intro m hm
+  have sg := shallowMatch_good hsh
+  obtain ⟨hig, hflex, hexp⟩ := deepPre_generic hpre
+  have hst : ∀ x ∈ [(b, 0)], StGood x.1 pp 0 := by
+    intro x hx
+    simp only [List.mem_singleton] at hx
+    subst hx
+    refine ⟨?_, by simp [keysOf, sg.maps], sg.inv, sg.noconf⟩
+    intro k hk
+    simp only [keysOf, sg.maps, List.map_cons, List.map_nil, List.mem_singleton] at hk
+    exact Or.inl hk
+  obtain ⟨x, hx, hr⟩ := deepKids_good cm ig pp sp s kids hIH 0 [(b, 0)] 0 hst m hm
+  simp only [List.mem_singleton] at hx
+  subst hx
+  have hroot : dictGet pp m.mappings = some sp := by
+    apply hr.ext.maps
+    simp [sg.maps, dictGet]
+  refine ⟨hr.under, hr.nodup, ?_, ?_, hr.inv, hr.noconf⟩
+  · rw [embAt]
+    simp only [hroot, decide_true, Bool.true_and]
+    cases hrole : role (T.mk k f fl kids) with
+    | wildcard => rfl
+    | expPh key =>
+      simp only
+      have hk := hexp key hrole
+      exact hr.ext.exps _ (sg.expKey key hrole hk)
+    | wrapper =>
+      simp only
+      have hnn : (T.mk k f fl kids).kind ≠ "Name" := by
+        intro hk
+        simp only [role, hk] at hrole
+        simp only [show ("Name" : String) ≠ "Pass" from by decide, if_false, if_true] at hrole
+        cases hc : nameClass ((T.mk k f fl kids).strAttr "id") <;> simp [hc] at hrole
+      rcases hig with hig | ⟨_, hk⟩
+      · exact hr.kids hig
+      · exact absurd hk hnn
+    | concrete =>
+      simp only [Bool.and_eq_true, Bool.or_eq_true, decide_eq_true_eq]
+      refine ⟨nodeOk_mono hr.ext (sg.node hrole), ?_⟩
+      rcases hig with hig | ⟨_, hk⟩
+      · right
+        rw [hflex]
+        exact hr.kids hig
+      · left; exact hk
+  · intro kv hkv
+    rw [expSomewhere]
+    simp only [Bool.or_eq_true, Bool.and_eq_true, decide_eq_true_eq]
+    rcases hr.exps kv hkv with h | h
+    · obtain ⟨h1, h2, _⟩ := sg.exps kv h
+      left
+      exact ⟨h1, by rw [h2]; exact hroot⟩
+    · exact Or.inr h
+
+theorem good_binflex {pp sp : Path} {k f : String} {fl : List Fld} {l op r : T} {s sop sjl sjr : T}
+    {b o lm rm m : AstMap} {jl jr : Nat}
+    (hkind : k = "BinOp") (hflex : flexOp (.mk k f fl [l, op, r]) = true)
+    (hopk : op.kind = "Add" ∨ op.kind = "Mult") (hleaf : op.kids = [])
+    (hb : ShallowGood b false pp (.mk k f fl [l, op, r]) sp s)
+    (ho : ShallowGood o true (pp ++ [1]) op (sp ++ [1]) sop)
+    (hs1 : s.kids[1]? = some sop) (hsl : s.kids[jl]? = some sjl) (hsr : s.kids[jr]? = some sjr)
+    (hj : jl ≠ jr ∧ jl ≠ 1 ∧ jr ≠ 1)
+    (hl : Good lm (pp ++ [0]) l (sp ++ [jl]) sjl) (hr : Good rm (pp ++ [2]) r (sp ++ [jr]) sjr)
+    (hm : m = ((b.merged o).merged lm).merged rm) (hc : m.hasConflicts = false) :
+    Good m pp (.mk k f fl [l, op, r]) sp s := by
+  have hrole : role (T.mk k f fl [l, op, r]) = .concrete := by subst hkind; simp [role]
+  have hopn : op.kind ≠ "Name" := by rcases hopk with h | h <;> rw [h] <;> decide
+  have hoprole : role op = .concrete := by
+    rcases hopk with h | h <;> simp [role, h]
+  -- keys
+  have kb : ∀ x ∈ keysOf b.mappings, x = pp := by
+    intro x hx; simpa [keysOf, hb.maps] using hx
+  have ko : ∀ x ∈ keysOf o.mappings, x = pp ++ [1] := by
+    intro x hx; simpa [keysOf, ho.maps] using hx
+  have k1 : ∀ x ∈ keysOf (b.merged o).mappings, x = pp ∨ x = pp ++ [1] := by
+    intro x hx
+    rcases keys_merged hx with h | h
+    · exact Or.inl (kb x h)
+    · exact Or.inr (ko x h)
+  have k2 : ∀ x ∈ keysOf ((b.merged o).merged lm).mappings, x = pp ∨ x = pp ++ [1] ∨ (pp ++ [0]) <+: x := by
+    intro x hx
+    rcases keys_merged hx with h | h
+    · rcases k1 x h with h | h
+      · exact Or.inl h
+      · exact Or.inr (Or.inl h)
+    · exact Or.inr (Or.inr (hl.under x h))
+  have e_b1 : Ext b (b.merged o) := by
+    apply ext_merged_left
+    intro x hx hx2
+    rw [ko x hx] at hx2
+    have := kb _ hx2
+    have h2 := congrArg List.length this
+    simp at h2
+  have e_o1 : Ext o (b.merged o) := ext_merged_right (by simp [keysOf, ho.maps])
+  have e_12 : Ext (b.merged o) ((b.merged o).merged lm) := by
+    apply ext_merged_left
+    intro x hx hx2
+    have hp := hl.under x hx
+    rcases k1 x hx2 with h | h
+    · rw [h] at hp; exact not_snoc_prefix_self _ _ hp
+    · rw [h] at hp
+      have := prefix_snoc_inj hp (List.prefix_refl _)
+      omega
+  have e_l2 : Ext lm ((b.merged o).merged lm) := ext_merged_right hl.nodup
+  have e_2m : Ext ((b.merged o).merged lm) m := by
+    rw [hm]
+    apply ext_merged_left
+    intro x hx hx2
+    have hp := hr.under x hx
+    rcases k2 x hx2 with h | h | h
+    · rw [h] at hp; exact not_snoc_prefix_self _ _ hp
+    · rw [h] at hp
+      have := prefix_snoc_inj hp (List.prefix_refl _)
+      omega
+    · have := prefix_snoc_inj hp h
+      omega
+  have e_rm : Ext rm m := by rw [hm]; exact ext_merged_right hr.nodup
+  have e_bm : Ext b m := e_b1.trans (e_12.trans e_2m)
+  have e_om : Ext o m := e_o1.trans (e_12.trans e_2m)
+  have e_lm : Ext lm m := e_l2.trans e_2m
+  have hroot : dictGet pp m.mappings = some sp := by
+    apply e_bm.maps; simp [hb.maps, dictGet]
+  have hrootl : dictGet (pp ++ [0]) m.mappings = some (sp ++ [jl]) := e_lm.maps _ _ (embAt_root hl.emb)
+  have hrooto : dictGet (pp ++ [1]) m.mappings = some (sp ++ [1]) := by
+    apply e_om.maps; simp [ho.maps, dictGet]
+  have hrootr : dictGet (pp ++ [2]) m.mappings = some (sp ++ [jr]) := e_rm.maps _ _ (embAt_root hr.emb)
+  have hopemb : embAt m (pp ++ [1]) op (sp ++ [1]) sop = true := by
+    cases op with
+    | mk ok of ofl oks =>
+      simp only [T.kids_mk] at hleaf
+      subst hleaf
+      rw [embAt]
+      simp only [hrooto, hoprole, decide_true, Bool.true_and, Bool.and_eq_true, Bool.or_eq_true,
+        decide_eq_true_eq]
+      refine ⟨nodeOk_mono e_om (ho.node hoprole), Or.inr ?_⟩
+      rw [embKids]
+  refine ⟨?_, ?_, ?_, ?_, ?_, noconf_of_hasConflicts hc⟩
+  · -- all keys under pp
+    intro x hx
+    rw [hm] at hx
+    rcases keys_merged hx with h | h
+    · rcases k2 x h with h | h | h
+      · rw [h]; exact List.prefix_refl _
+      · rw [h]; exact List.prefix_append _ _
+      · exact prefix_of_snoc_prefix h
+    · exact prefix_of_snoc_prefix (hr.under x h)
+  · rw [hm]
+    exact nodup_merged (nodup_merged (nodup_merged (by simp [keysOf, hb.maps])))
+  · rw [embAt]
+    simp only [hroot, hrole, decide_true, Bool.true_and, Bool.and_eq_true, Bool.or_eq_true,
+      decide_eq_true_eq]
+    refine ⟨nodeOk_mono e_bm (hb.node hrole), Or.inr ?_⟩
+    rw [hflex]
+    simp only [Bool.not_true]
+    rw [embKids]
+    simp only [hrootl, List.getLast?_append, List.getLast?_singleton, Option.some_or, hsl,
+      Bool.and_eq_true, decide_eq_true_eq]
+    refine ⟨⟨⟨trivial, by simp⟩, embAt_mono e_lm _ _ _ _ hl.emb⟩, ?_⟩
+    rw [embKids]
+    simp only [Nat.zero_add, hrooto, List.getLast?_append, List.getLast?_singleton, Option.some_or, hs1,
+      Bool.and_eq_true, decide_eq_true_eq]
+    refine ⟨⟨⟨trivial, by simp [Ne.symm hj.2.1]⟩, hopemb⟩, ?_⟩
+    rw [embKids]
+    simp only [hrootr, List.getLast?_append, List.getLast?_singleton, Option.some_or, hsr,
+      Bool.and_eq_true, decide_eq_true_eq]
+    refine ⟨⟨⟨trivial, by simp [hj.2.2, Ne.symm hj.1]⟩, embAt_mono e_rm _ _ _ _ hr.emb⟩, ?_⟩
+    rw [embKids]
+  · intro kv hkv
+    rw [expSomewhere]
+    simp only [Bool.or_eq_true]
+    right
+    rw [hm] at hkv
+    rcases mem_exps_merged hkv with h | h
+    · rcases mem_exps_merged h with h | h
+      · rcases mem_exps_merged h with h | h
+        · have := (hb.exps kv h).1
+          rw [hrole] at this; cases this
+        · exact absurd (ho.exps kv h).2.2 hopn
+      · rw [expSomewhereL]
+        simp only [Bool.or_eq_true]
+        exact Or.inl (expSomewhere_mono e_lm _ _ _ _ (hl.exps kv h))
+    · rw [expSomewhereL, expSomewhereL, expSomewhereL]
+      simp only [Bool.or_eq_true]
+      exact Or.inr (Or.inr (Or.inl (expSomewhere_mono e_rm _ _ _ _ (hr.exps kv h))))
+  · rw [hm]; exact confInv_merged _ _
+
+theorem kidKind_one (l op r : T) : kidKind [l, op, r] 1 = op.kind := by
+  simp [kidKind]
+
+/-- **Core of C10**: every map `deep_find_match` returns embeds the pattern node at the student node. -/
+theorem deep_good : ∀ (p : T), opLeaves p = true → ∀ (cm : Bool) (pp sp : Path) (s : T),
+    ∀ m ∈ deep cm pp p sp s, Good m pp p sp s := by
+  intro p
+  induction p using T.induct' with
+  | h k f fl kids ih =>
+    intro hop cm pp sp s m hm
+    have hIH : ∀ c ∈ kids, ∀ cm pp sp s, ∀ m ∈ deep cm pp c sp s, Good m pp c sp s :=
+      fun c hc => ih c hc (opLeaves_kids hop c hc)
+    rw [deep.eq_def] at hm
+    simp only at hm
+    cases hpre : deepPre cm pp (T.mk k f fl kids) sp s with
+    | done r =>
+      simp only [hpre] at hm
+      rcases deepPre_done hpre m hm with ⟨rfl, hr⟩ | ⟨name, rfl, hr⟩
+      · exact good_pairMap_wild hr
+      · exact good_expMap hr
+    | generic ig =>
+      simp only [hpre] at hm
+      cases hsh : shallowMatch cm pp (T.mk k f fl kids) sp s with
+      | none => simp [hsh] at hm
+      | some b =>
+        simp only [hsh] at hm
+        exact good_generic hpre hsh hIH m hm
+    | binflex =>
+      simp only [hpre] at hm
+      obtain ⟨hkind, hflex⟩ := deepPre_binflex hpre
+      simp only [T.kind_mk] at hkind
+      match kids, hIH, hop, hpre, hflex, hm with
+      | [l, op, r], hIH, hop, hpre, hflex, hm =>
+        simp only at hm
+        cases hsh : shallowMatch false pp (T.mk k f fl [l, op, r]) sp s with
+        | none => simp [hsh] at hm
+        | some b =>
+          simp only [hsh] at hm
+          have hopk : op.kind = "Add" ∨ op.kind = "Mult" := by
+            simp only [flexOp, T.kids_mk, kidKind_one, Bool.and_eq_true, Bool.or_eq_true,
+              decide_eq_true_eq] at hflex
+            rcases hflex.2 with h | h
+            · exact Or.inr h
+            · exact Or.inl h
+          have hleaf : op.kids = [] :=
+            opLeaves_leaf (opLeaves_kids hop op (by simp)) hopk
+          match hsk : s.kids, hm with
+          | [sl, sop, sr], hm =>
+            simp only at hm
+            cases hso : shallowMatch true (pp ++ [1]) op (sp ++ [1]) sop with
+            | none => simp [hso] at hm
+            | some o =>
+              simp only [hso] at hm
+              have sgb := shallowMatch_good hsh
+              have sgo := shallowMatch_good hso
+              rw [List.mem_append] at hm
+              rcases hm with hm | hm
+              · obtain ⟨lm, hlm, rm, hrm, e, hc⟩ := binflexHelper_mem hm
+                exact good_binflex (jl := 0) (jr := 2) hkind hflex hopk hleaf sgb sgo
+                  (by rw [hsk]; rfl) (by rw [hsk]; rfl) (by rw [hsk]; rfl) (by decide)
+                  (hIH l (by simp) _ _ _ _ lm hlm) (hIH r (by simp) _ _ _ _ rm hrm) e hc
+              · obtain ⟨lm, hlm, rm, hrm, e, hc⟩ := binflexHelper_mem hm
+                exact good_binflex (jl := 2) (jr := 0) hkind hflex hopk hleaf sgb sgo
+                  (by rw [hsk]; rfl) (by rw [hsk]; rfl) (by rw [hsk]; rfl) (by decide)
+                  (hIH l (by simp) _ _ _ _ lm hlm) (hIH r (by simp) _ _ _ _ rm hrm) e hc
+          | [], hm => simp at hm
+          | [_], hm => simp at hm
+          | [_, _], hm => simp at hm
+          | _ :: _ :: _ :: _ :: _, hm => simp at hm
+      | [], _, _, _, _, hm => simp at hm
+      | [_], _, _, _, _, hm => simp at hm
+      | [_, _], _, _, _, _, hm => simp at hm
+      | _ :: _ :: _ :: _ :: _, _, _, _, _, hm => simp at hm
 
 end Pedal.Cait
